@@ -789,7 +789,91 @@ func (en *Engine) execTypeAssert(st *State, f *Frame, x *ssa.TypeAssert) []*Stat
 
 // noteRead/noteWrite are hooks for the frame/flow back end.
 func (en *Engine) noteRead(st *State, p PtrV, pos string)  {}
-func (en *Engine) noteWrite(st *State, p PtrV, pos string) {}
+// writeFrame: the locations a function may write according to its `modifies` clause, resolved
+// at entry. Every program-level write (store instruction, copy, library model, callee's
+// modifies clause) to memory that existed at entry must fall inside it: obligation `wframe`.
+// This is stronger than comparing entry and exit memory (the `frame` obligations): a write that
+// is undone before returning is still a write another goroutine can observe.
+type writeFrame struct {
+	entry   map[*Region]bool
+	allowed []Value
+}
+
+func (en *Engine) noteWrite(st *State, p PtrV, pos string) {
+	en.checkWrite(st, p.R, p.Path, nil, nil, pos)
+}
+
+func pathPrefixEq(pre, full []PathEl) (*Term, bool) {
+	if len(pre) > len(full) {
+		return nil, false
+	}
+	cond := True()
+	for i, e := range pre {
+		f := full[i]
+		if (e.Idx == nil) != (f.Idx == nil) {
+			return nil, false
+		}
+		if e.Idx == nil {
+			if e.Field != f.Field {
+				return nil, false
+			}
+			continue
+		}
+		cond = And(cond, Eq(e.Idx, f.Idx))
+	}
+	return cond, true
+}
+
+// checkWrite: a write to r at path (optionally the index range [off, off+n) below path).
+func (en *Engine) checkWrite(st *State, r *Region, path []PathEl, off, n *Term, pos string) {
+	wf := st.wframe
+	if wf == nil || r == nil {
+		return
+	}
+	if !wf.entry[r] {
+		if r.kind != "global" || r.global == nil || r.global.Pkg == nil || !modulePkg(r.global.Pkg.Pkg.Path()) {
+			return // memory allocated by this call
+		}
+	}
+	goal := False()
+	for _, a := range wf.allowed {
+		switch l := a.(type) {
+		case PtrV:
+			if l.R != r {
+				continue
+			}
+			if c, ok := pathPrefixEq(l.Path, path); ok {
+				goal = Or(goal, c)
+			}
+		case SliceV:
+			if l.R != r {
+				continue
+			}
+			c, ok := pathPrefixEq(l.Path, path)
+			if !ok {
+				continue
+			}
+			hi := Add(l.Off, l.Len)
+			if len(path) > len(l.Path) {
+				e := path[len(l.Path)]
+				if e.Idx == nil {
+					continue
+				}
+				goal = Or(goal, And(c, Le(l.Off, e.Idx), Lt(e.Idx, hi)))
+			} else if off != nil {
+				goal = Or(goal, And(c, Or(Le(n, ConstI(0)), And(Le(l.Off, off), Le(Add(off, n), hi)))))
+			} else {
+				// the whole array is written: allowed only if the range is the whole array; not expressible here
+				continue
+			}
+		}
+	}
+	if goal == True() {
+		en.flowOK++
+		return
+	}
+	en.addObl(st, "wframe", goal, fmt.Sprintf("write to %s (memory that existed before the call) is inside the modifies clause", r.name), pos)
+}
 
 // callOrdinal numbers the call instructions of fn in block/instruction order (1-based).
 func (en *Engine) callOrdinal(fn *ssa.Function, c *ssa.Call) int {
